@@ -308,3 +308,42 @@ if __name__ == "__main__":
     p = ir.load(sorted(glob.glob("/verif/.work/facts/*-K2.json"))[-1])
     for f in p.find(id_re=sys.argv[1]):
         dump(p, f)
+
+
+def necessary_edges(g, block):
+    """switch edges that every path from the entry to `block` must take"""
+    b = g.body
+    out = []
+    for e in g.edges:
+        # remove the edge e.block -> e.target and test reachability of block
+        seen = {0}
+        st = [0]
+        found = False
+        while st and not found:
+            n = st.pop()
+            for s in b.succ[n]:
+                if n == e.block and s == e.target:
+                    # the same (block,target) pair may be shared by several switch values; the edge
+                    # is only removable if no *other* switch value goes to the same target
+                    continue
+                if s not in seen:
+                    if s == block:
+                        found = True
+                        break
+                    seen.add(s)
+                    st.append(s)
+        if block == 0:
+            found = True
+        if not found:
+            out.append(e)
+    return out
+
+
+def decision_table(g, refusal_kinds=("err",)):
+    """for every accepting return definition: (retdef, [conditions of necessary edges])"""
+    rows = []
+    for rd in g.retdefs:
+        if rd.kind in refusal_kinds or rd.kind == "partial":
+            continue
+        rows.append((rd, [e.cond for e in necessary_edges(g, rd.block)]))
+    return rows
